@@ -44,7 +44,7 @@ var _ validation.Validator = (*options)(nil)
 
 // Validate checks if the options are valid and returns an error if not
 func (o *options) Validate() error {
-	if o.failureRate < 0 || o.failureRate > 1 {
+	if !(o.failureRate >= 0 && o.failureRate <= 1) { // also rejects NaN
 		return fmt.Errorf("failureRate must be between 0.0 and 1.0, got %f", o.failureRate)
 	}
 	if o.minRequests < 1 {
@@ -97,7 +97,7 @@ func (o *options) Sanitize() {
 		o.window = d.window
 	}
 
-	if o.failureRate < 0 || o.failureRate > 1 {
+	if !(o.failureRate >= 0 && o.failureRate <= 1) { // also rejects NaN
 		o.failureRate = d.failureRate
 	}
 
